@@ -30,4 +30,6 @@ def run(prog, rep, tier, snap):
     rep.call(bitint.r19_4, prog, rep)
     rep.rule("R19.5", "representation tag discipline in the assign functions", 8)
     rep.call(bitint.r19_5, prog, rep)
+    rep.rule("R19.6", "membership split, shift widths, live degrade loop", 8)
+    rep.call(bitint.r19_6, prog, rep)
 READY = True
